@@ -44,7 +44,13 @@ QUERIES = [("xtv", Q_XTVERSION), ("da1", Q_DA1), ("fg", Q_FG), ("bg", Q_BG),
            ("cell", Q_CELL), ("area", Q_AREA), ("kitty", Q_KITTY)]
 SENTINEL = b"~~C12-END-OF-CASE~~"
 
-HARD_CAP = 30.0  # seconds: a call that has not returned by then is reported as blocked
+HARD_CAP = 30.0  # seconds: protocol steps (driver start-up, leftover collection)
+
+
+def call_cap(T):
+    """seconds after which a call that has not returned is reported as blocked: an epoch has
+    at most 4 queries of at most one timeout each (+ T/5 of delays each), i.e. < 5 T"""
+    return 6.0 + 10 * T
 # bytes that are safe to write to a tty in its default (ICANON | ISIG | IXON | ICRNL) mode
 PTY_SAFE = frozenset([0x07, 0x1B] + list(range(0x20, 0x7F)))
 
@@ -155,8 +161,8 @@ class Session:
             result = self.poll_result()
             if result is not None:
                 break
-            if time.monotonic() - t_start > HARD_CAP:
-                raise Blocked("call did not return within %.0f s" % HARD_CAP)
+            if time.monotonic() - t_start > call_cap(T):
+                raise Blocked("call did not return within %.0f s (timeout %.2f s)" % (call_cap(T), T))
             rd, _, _ = select.select([self.res_r, self.master], [], [], 1.0)
             if self.res_r in rd:
                 chunk = os.read(self.res_r, 65536)
